@@ -58,3 +58,151 @@ Theorem C17_existing_element_unchanged : forall c c' v s e trailing,
   api_seg_to_er7 c v s (Some e) trailing = api_seg_to_er7 c' v s (Some e) trailing.
 Proof. reflexivity. Qed.
 Print Assumptions C17_existing_element_unchanged.
+
+(* ============================================================================================ *)
+(* MESSAGE LEVEL: arguments DERIVED FROM THE MESSAGE TEXT (Model/ConfigMsg.v, Model/Message.v).
+   parse_message(text, validation_level, find_groups) takes the version from MSH-12 and the delimiters
+   from MSH-1/MSH-2; Model/Message.parse_message has the process default version as the parameter
+   `dflt`, read exactly where Message(version=None) reads get_default_version().  The theorems below
+   are about that model (no longer true "by construction"): with the level given and a header that
+   states a version, the Message, its to_er7() and its validation report do not depend on ANY of the
+   three defaults; without MSH-12 they do; and the delimiters the parsed message and all its
+   elements encode with are those of the text.  Proofs: Proofs/ConfigMsgFacts.v. *)
+From HL7 Require Import Model.Header Model.MsgTree Model.Message Model.ConfigMsg Model.LeafFull Gen.Tables.
+From HL7 Require Import Proofs.MsgEcFacts Proofs.ConfigMsgFacts.
+From HL7 Require Model.MsgEc Model.Validate Model.Datatypes Properties.C07.
+
+(* (a) `header_states_supported_version text` is the decidable premise "MSH-12 of the text names one of
+   the shipped versions" (header_version = first component of MSH-12 as get_message_info reads it) *)
+Theorem C17_parse_message_independent : forall c1 c2 (text : str) l find_groups,
+  header_states_supported_version text = true ->
+  api_parse_message c1 text (Some l) find_groups = api_parse_message c2 text (Some l) find_groups /\
+  api_parse_message_to_er7 c1 text (Some l) find_groups = api_parse_message_to_er7 c2 text (Some l) find_groups /\
+  api_parse_message_validate c1 text (Some l) find_groups = api_parse_message_validate c2 text (Some l) find_groups.
+Proof.
+  intros c1 c2 text l fg H. unfold header_states_supported_version in H.
+  destruct (header_version text) as [v|] eqn:Hv; [|discriminate].
+  pose proof (api_parse_message_independent c1 c2 text l fg v Hv) as E.
+  unfold api_parse_message_to_er7, api_parse_message_validate. cbn [get_level]. rewrite E.
+  split; [reflexivity|]. split; reflexivity.
+Qed.
+Print Assumptions C17_parse_message_independent.
+
+(* the same for ANY stated version and for the raw model function with two arbitrary default versions:
+   the stated version is used as if it had been the default; an unsupported one is refused *)
+Theorem C17_parse_message_independent_any_stated_version : forall d1 d2 (text : str) l find_groups v,
+  header_version text = Some v ->
+  parse_message tables_of d1 l find_groups text = parse_message tables_of d2 l find_groups text /\
+  parse_message tables_of d1 l find_groups text = parse_message tables_of v l find_groups text /\
+  (tables_of v = None -> parse_message tables_of d1 l find_groups text = Err (HL7 EUnsupportedVersion)).
+Proof.
+  intros d1 d2 text l fg v Hv. destruct (header_version_info text v Hv) as (e & st & Hi).
+  split; [exact (parse_message_dflt_irrelevant tables_of _ _ l fg text e st v Hi)|].
+  split; [exact (parse_message_dflt_irrelevant tables_of _ _ l fg text e st v Hi)|].
+  intros Ht. exact (api_parse_message_unsupported (mk_cfg d1 l default_ec default_ec) text (Some l) fg v Hv Ht).
+Qed.
+Print Assumptions C17_parse_message_independent_any_stated_version.
+
+(* the tables the message is parsed with are those of the stated version; of the default only without MSH-12 *)
+Theorem C17_parse_message_version_source : forall c (text : str) l find_groups t m,
+  api_parse_message c text l find_groups = Ok (t, m) ->
+  t_version t = match header_version text with Some v => v | None => d_version c end.
+Proof. intros c text l fg t m. exact (parse_message_version (d_version c) (get_level c l) fg text t m). Qed.
+Print Assumptions C17_parse_message_version_source.
+
+(* an omitted level is the default level of the configuration; the default delimiter sets are never read *)
+Theorem C17_parse_message_reads_only_version_and_level : forall c e e27 (text : str) l find_groups,
+  api_parse_message c text None find_groups = api_parse_message c text (Some (d_level c)) find_groups /\
+  api_parse_message c text l find_groups =
+  api_parse_message (mk_cfg (d_version c) (d_level c) e e27) text l find_groups.
+Proof. intros; split; reflexivity. Qed.
+Print Assumptions C17_parse_message_reads_only_version_and_level.
+
+(* (b) the premise of (a) is needed: without MSH-12 the default version decides which tables are used *)
+Theorem C17_parse_message_default_version_used : exists c1 c2 (text : str),
+  header_version text = None /\
+  d_level c1 = d_level c2 /\ d_ec c1 = d_ec c2 /\ d_ec27 c1 = d_ec27 c2 /\
+  api_parse_message c1 text (Some TOLERANT) false <> api_parse_message c2 text (Some TOLERANT) false.
+Proof.
+  exists (mk_cfg "2.5" TOLERANT default_ec default_ec_27), (mk_cfg "2.3" TOLERANT default_ec default_ec_27),
+         ("MSH|^~\&|A|B|C|D|20200101||ADT^A01|1|P" : bs).
+  split; [vm_compute; reflexivity|]. repeat (split; [reflexivity|]).
+  intros E.
+  apply (f_equal (fun r => match r with Ok (t, _) => t_version t | Err _ => [] end)) in E.
+  vm_compute in E. discriminate E.
+Qed.
+Print Assumptions C17_parse_message_default_version_used.
+
+(* ... and an omitted level reads the default level *)
+Theorem C17_parse_message_default_level_used : exists c1 c2 (text : str),
+  header_states_supported_version text = true /\
+  outcome_code (api_parse_message c1 text None false) <> outcome_code (api_parse_message c2 text None false).
+Proof.
+  exists (mk_cfg "2.5" TOLERANT default_ec default_ec_27), (mk_cfg "2.5" STRICT default_ec default_ec_27),
+         (("MSH|^~\&|A|B|C|D|20200101||ADT^A01|1|P|2.5" ++ [CR] ++ "PID|1~2")%list : str).
+  split; [vm_compute; reflexivity|]. vm_compute. discriminate.
+Qed.
+Print Assumptions C17_parse_message_default_level_used.
+
+(* texts satisfying the premise of (a): the default and a custom delimiter set, v2.5 and v2.7 with a
+   truncation character; and texts that do not (no MSH-12; an unknown version) *)
+Example C17_example_header_versions :
+  header_states_supported_version "MSH|^~\&|A|B|C|D|20200101||ADT^A01|1|P|2.5" = true /\
+  header_version "MSH!@*%$!A!B!C!D!20200101!!ADT@A01!1!P!2.3.1@x" = Some ("2.3.1" : str) /\
+  header_states_supported_version "MSH!@*%$!A!B!C!D!20200101!!ADT@A01!1!P!2.3.1@x" = true /\
+  header_ec "MSH!@*%$#!A!B!C!D!20200101!!ADT@A01!1!P!2.7" = Some (mk_ec "!" "@" "*" "%" "$" (Some "#"%byte)) /\
+  header_states_supported_version "  MSH|^~\&|A|B|C|D|20200101||ADT^A01|1|P| 2.8.2 " = true /\
+  header_states_supported_version "MSH|^~\&|A|B|C|D|20200101||ADT^A01|1|P" = false /\
+  header_states_supported_version "MSH|^~\&|A|B|C|D|20200101||ADT^A01|1|P|9.9" = false /\
+  (* a message written with its own delimiters, parsed under hostile defaults: the same text comes back *)
+  (let text : str := ("MSH!@*%$!A!B!C!D!20200101!!ADT@A01!1!P!2.5" ++ [CR] ++ "PID!1!!X@Y$Z*W")%list in
+   let c := mk_cfg "2.3" STRICT (mk_ec "#" ":" ";" "?" "=" None) (mk_ec "#" ":" ";" "?" "=" None) in
+   api_parse_message_to_er7 c text (Some TOLERANT) false = Ok text).
+Proof. vm_compute. repeat split; reflexivity. Qed.
+
+(* (c) the parsed message - and every element below it - encodes with the delimiters of the text:
+   Message._get_encoding_chars gives the set spelled out by MSH-1/MSH-2 (TRUNCATION kept from v2.7 on:
+   norm_ec, the vocabulary of C07), to_er7() encodes the children with exactly that set, and by
+   C07_inherit every descendant element reads that set from its root, for ALL default sets. *)
+Theorem C17_message_elements_encode_with_own_delimiters :
+  forall c (text : str) l find_groups t m e,
+  api_parse_message c text l find_groups = Ok (t, m) -> header_ec text = Some e ->
+  message_ec (t_version t) m = Ok (norm_ec (t_version t) e) /\
+  enc_message t (get_level c l) m =
+    enc_children t (get_level c l) (norm_ec (t_version t) e) (m_st m) (m_children m) /\
+  exists hm, msg_header_of (t_version t) m = Some hm /\
+    forall dflt dflt27 kids el, In el (MsgEc.message_descendants hm kids) ->
+      MsgEc.elem_encoding_chars dflt dflt27 el = Ok (MsgEc.ecd_of_ec (norm_ec (t_version t) e)).
+Proof.
+  intros c text l fg t m e H He. unfold header_ec, header_info in He.
+  destruct (get_message_info (lstrip text)) as [[[e' st] ver]|] eqn:Hi; [|discriminate]. injection He as ->.
+  unfold api_parse_message in H.
+  pose proof (parse_message_msh_head _ _ _ _ _ _ _ _ _ H Hi) as Hh.
+  split; [exact (parse_message_ec _ _ _ _ _ _ _ _ _ H Hi)|].
+  split; [exact (parse_message_enc_own _ _ _ _ _ _ _ _ _ H Hi)|].
+  destruct (msg_header_exact (t_version t) e m Hh) as (hm & E1 & _ & E2). exists hm. split; [exact E1|].
+  intros dflt dflt27 kids el Hin. rewrite (Properties.C07.C07_inherit dflt dflt27 hm kids el Hin). exact E2.
+Qed.
+Print Assumptions C17_message_elements_encode_with_own_delimiters.
+
+(* (d) datatype_factory(datatype, value, version, validation_level): explicit arguments are forwarded,
+   an omitted level is the default LEVEL of the configuration, an omitted version its default version *)
+Theorem C17_datatype_factory : forall c1 c2 dt e s v l,
+  api_datatype_factory c1 dt e s (Some v) (Some l) = api_datatype_factory c2 dt e s (Some v) (Some l) /\
+  (forall v', api_datatype_factory c1 dt e s v' None = api_datatype_factory c1 dt e s v' (Some (d_level c1)) /\
+              api_datatype_factory c1 dt e s v' None =
+                Datatypes.factory (match v' with Some x => x | None => d_version c1 end) (dlevel (d_level c1)) dt e s).
+Proof. intros; split; [reflexivity|]. intros; split; reflexivity. Qed.
+Print Assumptions C17_datatype_factory.
+
+(* the level matters (so the defaulting above is observable): an invalid NM raises ValueError under a
+   STRICT default and falls back to ST under a TOLERANT one *)
+Theorem C17_datatype_factory_level_used : exists c1 c2 dt e s v,
+  api_datatype_factory c1 dt e s (Some v) None <> api_datatype_factory c2 dt e s (Some v) None /\
+  api_datatype_factory c1 dt e s (Some v) (Some TOLERANT) = api_datatype_factory c2 dt e s (Some v) (Some TOLERANT).
+Proof.
+  exists (mk_cfg "2.5" TOLERANT default_ec default_ec_27), (mk_cfg "2.5" STRICT default_ec default_ec_27),
+         ("NM" : bs), default_ec, ("abc" : bs), ("2.5" : bs).
+  split; [vm_compute; discriminate|reflexivity].
+Qed.
+Print Assumptions C17_datatype_factory_level_used.
